@@ -1,15 +1,31 @@
+
+RL = "tracing-appender/src/rolling.rs"
+def gen_prune_tail(repo):
+    """Tail of Inner::prune_old_logs after the directory listing (`let mut files = match files {..};`): the early return,
+    the sort by creation time and the removal loop, extracted verbatim into a function over the harness module's stand-ins
+    (`fs::remove_file`, entry.path(), a no-op `eprintln!`, and `VFiles`, a Vec wrapper whose sort_by_key is a plain stable
+    insertion sort - std's sort is assumed to be a stable sort and is too expensive for CBMC - are defined there).  The directory listing itself
+    (read_dir, metadata, name filters) is dropped: file-system calls are out of Kani's reach."""
+    from vlib import extract
+    ex = extract.Extractor(repo)
+    body = ex.fn_body(RL, r"fn prune_old_logs\(&self, max_files: usize\)", within=r"impl Inner")
+    _, tail = ex.split_after(body, "let mut files = match files")
+    return ("\n// ---- mechanically extracted from " + RL + " (tail of Inner::prune_old_logs after the directory listing) ----\n"
+            "fn __extracted_prune_tail(files: VFiles, max_files: usize) {\n    let mut files = files;\n" + tail + "\n}\n")
+
+
 PLAN = dict(
     id="C16", level="other", explanation='Time arithmetic and the rotation election: Rotation::round_date is the start of the period containing the instant (component form, every valid instant of 1970..=2399); next_date is exactly one period after that start, strictly after now, on a boundary (bounded to those years); Inner::should_rollover returns the stored boundary iff it is non-zero and reached - so time standing still or stepping back below the boundary never rotates; Inner::advance_date wins iff nobody advanced the boundary first, stores next_date(now) which is strictly beyond now and the old boundary, after which the same instant does not rotate again and a second caller holding the old boundary loses (single rotation per boundary). File-system effects and pruning are out of reach.',
-    functions_under_contract=['tracing-appender/src/rolling.rs: Rotation::{round_date,next_date}, Inner::{should_rollover,advance_date}'],
+    functions_under_contract=['tracing-appender/src/rolling.rs: Inner::prune_old_logs - the part after the directory listing (early return, sort by creation time, removal loop), extracted mechanically on every run; std sort_by_key replaced by a stable insertion sort (assumed contract)', 'tracing-appender/src/rolling.rs: Rotation::{round_date,next_date}, Inner::{should_rollover,advance_date}'],
     trusted_base=["Kani 0.68 / CBMC 6.11 / CaDiCaL; Kani's std build (nightly-2026-08-21), not the repo toolchain's", 'core::fmt::Formatter::pad stubbed to Ok(()) with -Z stubbing (panic-message formatting on infeasible error branches; no harness that uses it reads formatted text)', 'cfg(kani) thread_local! shim and once_cell::sync::Lazy contract stub (see overlay_additions)', "the `time` crate's Date/Time/OffsetDateTime arithmetic is executed, not stubbed"],
     assumptions=['atomicity of the compare_exchange (sequential execution)', 'timestamps >= 0 (`as usize` casts)'],
     not_covered=['bytes landing in files, refresh_writer, prune_old_logs (directory iteration, creation times, remove_file)', 'join_date (formatting)', 'RollingFileAppender::{write,make_writer} control flow (needs a File)'],
     kani=[dict(
         crate="tracing-appender", tls_shim_crates=["tracing-core", "tracing-subscriber"], once_cell_stub=True,
-        modules=[dict(name="__verif_c16", attach="inline", file="tracing-appender/src/rolling.rs", modpath="rolling", files=["rolling.kani.rs"])],
+        modules=[dict(name="__verif_c16", attach="inline", file="tracing-appender/src/rolling.rs", modpath="rolling", files=["rolling.kani.rs"], generator="gen_prune_tail")],
     )],
     manifest=dict(technique='contracts on the real period arithmetic and CAS election, instants built from components (Kani)',
-        text='Partial: period arithmetic and the single-winner election are proved/bounded on the real code; where bytes land and which files are pruned is I/O with no contract within reach.',
+        text='Partial: period arithmetic and the single-winner election are proved/bounded on the real code; which of the listed files a rotation removes (count and oldest-first) is bounded on the extracted tail of prune_old_logs; where bytes land and the directory listing itself are I/O with no contract within reach.',
         note='Bounds: years 1970..=2399 for next_date. I/O not covered.',
         design_ref="DESIGN.md section 4, C16"),
 )
